@@ -230,7 +230,7 @@ def _body_open(toks):
     return None
 
 
-def weave_fn(sc, fb):
+def weave_fn(sc, fb, reach=False):
     impl_type, name = fb.path.split('::') if '::' in fb.path else (None, fb.path)
     it = extract_item(sc, fb.rel, 'fn', name, impl_type=impl_type)
     raw = it['text']
@@ -313,6 +313,8 @@ def weave_fn(sc, fb):
     external = 'external_body' in fb.opts
     if not external:
         first_txt = ''.join(l + '\n' for l, _ in fb.first)
+        if reach:
+            first_txt += f'proof {{ assert(false); }} // [reach:{fb.path}]\n'
         if first_txt:
             inserts.append((toks[bo].end, '\n' + first_txt))
         lps = _loops(text)
@@ -351,7 +353,7 @@ def _finish(fb, it, final, origin, counts, raw, external):
 DIRECTIVE = re.compile(r'^\s*//@(\w+)\s*(.*)$')
 
 
-def process_template(tmpl_path, repo):
+def process_template(tmpl_path, repo, reach=False):
     sc = SourceCache(repo)
     out_lines = []   # assembled text lines
     out_origin = []  # per assembled line: ('tmpl', line) | ('src', file, line) | ('tmpl',)
@@ -433,7 +435,7 @@ def process_template(tmpl_path, repo):
         elif d == 'end':
             if fb is None:
                 raise WeaveError(f'template line {tl}: //@end without //@fn')
-            final, meta = weave_fn(sc, fb)
+            final, meta = weave_fn(sc, fb, reach=reach)
             first = len(out_lines) + 1
             emit(final, origins=meta.pop('origin'))
             meta['out_first'], meta['out_last'] = first, len(out_lines)
